@@ -101,6 +101,10 @@ fn gen(t: &mut Tape, tier: Tier) -> Scenario {
         });
     }
     sc.set_i("nstreams", nstreams as u64);
+    if !many && t.below(3) == 0 {
+        // every plain decompress of this history reads through refills of a few bytes
+        sc.set_l("rd_script", vec![[1u64, 2, 3, 7, 16, 64][t.below(6) as usize]]);
+    }
     sc.set_l("sizes", sizes.clone());
     sc.set_l("markers", markers);
     let mut ops = Vec::new();
@@ -175,6 +179,7 @@ fn err_kind<T, E: std::fmt::Display>(r: Result<T, E>) -> Verdict {
 fn exec(sc: &Scenario, ctx: &mut Ctx) -> Vec<Violation> {
     let lzma2 = sc.i("lzma2") == 1;
     let ops = sc.l("ops");
+    let rd_script = sc.l("rd_script");
     let streams: Vec<&[u8]> = (0..sc.i("nstreams")).map(|i| sc.b(&format!("s{}", i))).collect();
     let params = |size: Option<u64>| {
         LzmaParams::new(
@@ -222,28 +227,55 @@ fn exec(sc: &Scenario, ctx: &mut Ctx) -> Vec<Violation> {
                 OP_DECOMP => {
                     let data = streams[(p[1] as usize).min(streams.len() - 1)];
                     let mut out = Vec::new();
-                    let mut r: &[u8] = data;
-                    let v = if let Some(d) = d1.as_mut() {
-                        err_kind(d.decompress(&mut r, &mut out))
-                    } else if let Some(d) = d2.as_mut() {
-                        err_kind(d.decompress(&mut r, &mut out))
+                    // the same reader behaviour for the reused and the fresh decoder: a
+                    // slice, or refills of a few bytes (chunks then straddle refills)
+                    let (v, used) = if rd_script.is_empty() {
+                        let mut r: &[u8] = data;
+                        let v = if let Some(d) = d1.as_mut() {
+                            err_kind(d.decompress(&mut r, &mut out))
+                        } else if let Some(d) = d2.as_mut() {
+                            err_kind(d.decompress(&mut r, &mut out))
+                        } else {
+                            Verdict::Err("constructor refused".into())
+                        };
+                        (v, data.len() - r.len())
                     } else {
-                        Verdict::Err("constructor refused".into())
+                        let mut r = crate::env::SimSource::new(data, rd_script, crate::env::Faults::none());
+                        let v = if let Some(d) = d1.as_mut() {
+                            err_kind(d.decompress(&mut r, &mut out))
+                        } else if let Some(d) = d2.as_mut() {
+                            err_kind(d.decompress(&mut r, &mut out))
+                        } else {
+                            Verdict::Err("constructor refused".into())
+                        };
+                        (v, r.consumed())
                     };
-                    let used = data.len() - r.len();
                     if just_reset {
                         // the model: a freshly constructed decoder
                         let mut fout = Vec::new();
-                        let mut fr: &[u8] = data;
-                        let fv = if lzma2 {
-                            err_kind(Lzma2Decoder::new().decompress(&mut fr, &mut fout))
+                        let (fv, fused) = if rd_script.is_empty() {
+                            let mut fr: &[u8] = data;
+                            let fv = if lzma2 {
+                                err_kind(Lzma2Decoder::new().decompress(&mut fr, &mut fout))
+                            } else {
+                                match LzmaDecoder::new(params(cur_size), memlimit) {
+                                    Ok(mut f) => err_kind(f.decompress(&mut fr, &mut fout)),
+                                    Err(e) => Verdict::Err(e.to_string()),
+                                }
+                            };
+                            (fv, data.len() - fr.len())
                         } else {
-                            match LzmaDecoder::new(params(cur_size), memlimit) {
-                                Ok(mut f) => err_kind(f.decompress(&mut fr, &mut fout)),
-                                Err(e) => Verdict::Err(e.to_string()),
-                            }
+                            let mut fr = crate::env::SimSource::new(data, rd_script, crate::env::Faults::none());
+                            let fv = if lzma2 {
+                                err_kind(Lzma2Decoder::new().decompress(&mut fr, &mut fout))
+                            } else {
+                                match LzmaDecoder::new(params(cur_size), memlimit) {
+                                    Ok(mut f) => err_kind(f.decompress(&mut fr, &mut fout)),
+                                    Err(e) => Verdict::Err(e.to_string()),
+                                }
+                            };
+                            (fv, fr.consumed())
                         };
-                        let fused = data.len() - fr.len();
                         compared += 1;
                         if dirty {
                             dirty_compared += 1;
@@ -350,6 +382,9 @@ fn exec(sc: &Scenario, ctx: &mut Ctx) -> Vec<Violation> {
     if memlimit.is_some() {
         ctx.stats.hit("arm.decoders_constructed_with_a_memory_limit");
     }
+    if !rd_script.is_empty() {
+        ctx.stats.hit("arm.decodes_through_refills_of_a_few_bytes");
+    }
     if lzma2 {
         ctx.stats.hit("arm.lzma2_decoder");
     } else {
@@ -365,7 +400,7 @@ fn exec(sc: &Scenario, ctx: &mut Ctx) -> Vec<Violation> {
 pub static C14: SimpleProp = SimpleProp {
     id: "C14",
     level: "exploration",
-    rule: "one evaluation = one history of 4-12 operations (or, 1 run in 24, of A, k x (reset, B), reset, A with k up to 1025 - 65537 in the thorough tier - reuse cycles) {decompress stream i (valid, bit-flipped, truncated, spliced, or cut short by an injected source error after k one-byte refills, or by the sink failing at its k-th write or at the final flush), reset(None), reset(Some(None)), reset(Some(Some(n))) with n = a stream's size, ±1, or 0 / 2^32 / 2^63 / 2^64-1} on a single raw::LzmaDecoder (any lc/lp/pb, dictionary 1..65536; a third constructed with a memory limit, which every fresh decoder then shares) or raw::Lzma2Decoder (streams with changing properties); after every reset the next decompress is compared (verdict, bytes, consumed count) with a freshly constructed decoder with the same parameters and the size last specified; non-trivial = at least one such comparison; distinct by scenario hash",
+    rule: "one evaluation = one history of 4-12 operations (or, 1 run in 24, of A, k x (reset, B), reset, A with k up to 1025 - 65537 in the thorough tier - reuse cycles) {decompress stream i (valid, bit-flipped, truncated, spliced, or cut short by an injected source error after k one-byte refills, or by the sink failing at its k-th write or at the final flush), reset(None), reset(Some(None)), reset(Some(Some(n))) with n = a stream's size, ±1, or 0 / 2^32 / 2^63 / 2^64-1} (a third of the histories read every stream through refills of 1-64 bytes, the others from a slice) on a single raw::LzmaDecoder (any lc/lp/pb, dictionary 1..65536; a third constructed with a memory limit, which every fresh decoder then shares) or raw::Lzma2Decoder (streams with changing properties); after every reset the next decompress is compared (verdict, bytes, consumed count) with a freshly constructed decoder with the same parameters and the size last specified; non-trivial = at least one such comparison; distinct by scenario hash",
     runs_quick: 120_000,
     runs_thorough: 6_000_000,
     both_profiles: false,
